@@ -19,11 +19,11 @@ func init() {
 
 // reference accessors: methods through which a type name stored in the model is read.
 var refAccessors = map[string]string{
-	"(notations/jschema/ischema/constraint.TypesList).Names":              "names in `or` / `@a | @b` / generated type lists",
-	"(notations/jschema/ischema/constraint.TypeConstraint).Bytes":         "`type` rule value",
-	"(notations/jschema/ischema/constraint.AllOf).SchemaNames":            "`allOf` rule values",
+	"(notations/jschema/ischema/constraint.TypesList).Names":               "names in `or` / `@a | @b` / generated type lists",
+	"(notations/jschema/ischema/constraint.TypeConstraint).Bytes":          "`type` rule value",
+	"(notations/jschema/ischema/constraint.AllOf).SchemaNames":             "`allOf` rule values",
 	"(notations/jschema/ischema/constraint.AdditionalProperties).TypeName": "`additionalProperties: @type`",
-	"(*notations/jschema/ischema.MixedValueNode).GetTypes":                "value shortcut `@a | @b`",
+	"(*notations/jschema/ischema.MixedValueNode).GetTypes":                 "value shortcut `@a | @b`",
 }
 
 func c05agree(c *core.Ctx) {
@@ -234,9 +234,9 @@ func c05miss(c *core.Ctx) {
 	c.Rule(R, "every failed lookup of a name in a type table (`v, ok := table[name]` on a map[string]ischema.Type / map[string]schema.Schema, in scope) leads, on its !ok edge, to an ErrUserTypeNotFound error built with that name; deviant sites are tabled with a reason")
 	c.Floor(R, 5)
 	table := map[string]string{
-		"notations/jschema/checker.CheckRootSchema":                "the key is taken from the sorted key list of the very same map, so the entry exists",
-		"(*notations/jschema.JSchema).CollectUserTypes":            "the key is taken from the sorted list of the very same map's `#` keys (fix b5152aa), so the entry exists; this is not a reference resolution",
-		"notations/jschema/loader.AddUnnamedTypes":                 "both lookups use keys taken from the sorted key lists of the very same maps (the deterministic work list of fix 8863d18), so the entries exist",
+		"notations/jschema/checker.CheckRootSchema":               "the key is taken from the sorted key list of the very same map, so the entry exists",
+		"(*notations/jschema.JSchema).CollectUserTypes":           "the key is taken from the sorted list of the very same map's `#` keys (fix b5152aa), so the entry exists; this is not a reference resolution",
+		"notations/jschema/loader.AddUnnamedTypes":                "both lookups use keys taken from the sorted key lists of the very same maps (the deterministic work list of fix 8863d18), so the entries exist",
 		"(*notations/jschema/checker.recursionChecker).checkType": "missing type is treated as `nothing to check` by the recursion checker: reported as the known finding C06.table (the table passed down lacks the named types)",
 	}
 	n := map[string]int{}
